@@ -61,6 +61,11 @@ def vocabulary():
                                                                 g.binop("+", I("ii"), I("yy"))))), [])), [])
     add("frozen-nested-lambda", g.decl("rn", g.freeze(lam1(g.lam([g.param("bb")], g.binop("+", g.binop("+", I("aa"), I("bb")), I("yy")))))), ["rn"])
     add("call-nested", P(g.call(g.call(I("rn"), [L(1)]), [L(2)])), [])
+    # a freeze NESTED in frozen code: names bound by the enclosing frozen code (a parameter that shadows an
+    # outer variable, a local declaration) stay bound inside it - they are not looked up outside
+    add("frozen-nested-freeze", g.decl("rz", g.freeze(g.lam([g.param("yy")], g.seq([g.decl("kk", g.binop("+", I("yy"), I("yy"))),
+        g.freeze(g.lam([g.param("zz")], g.binop("+", g.binop("+", I("yy"), I("kk")), I("zz"))))])))), ["rz"])
+    add("call-nested-freeze", P(g.call(g.call(I("rz"), [L(5)]), [L(2)])), [])
     add("frozen-default", g.decl("rd", g.freeze(g.lam([g.param("aa"), g.param("bb", I("yy"))], g.binop("+", I("aa"), I("bb"))))), ["rd"])
     add("call-default", P(g.call(I("rd"), [L(1)])), [])
     add("frozen-try-while", P(g.call(g.freeze(g.lam([], g.seq([g.decl("cc", L(2)),
